@@ -339,6 +339,14 @@ func (p *Prog) calleesOf(call ssa.CallInstruction) []*ssa.Function {
 
 // funcValuesOf: repo functions a value may denote when passed to a library function.
 func (p *Prog) funcValuesOf(v ssa.Value) []*ssa.Function {
+	return p.funcValuesRec(v, map[ssa.Value]bool{})
+}
+
+func (p *Prog) funcValuesRec(v ssa.Value, seen map[ssa.Value]bool) []*ssa.Function {
+	if seen[v] {
+		return nil
+	}
+	seen[v] = true
 	switch x := v.(type) {
 	case *ssa.Function:
 		if p.inRepo(x) {
@@ -349,7 +357,7 @@ func (p *Prog) funcValuesOf(v ssa.Value) []*ssa.Function {
 			return []*ssa.Function{f}
 		}
 	case *ssa.ChangeType:
-		return p.funcValuesOf(x.X)
+		return p.funcValuesRec(x.X, seen)
 	case *ssa.MakeInterface:
 		// e.g. sort.Sort(sorted): every method of the dynamic type may be called back
 		t := x.X.Type()
@@ -373,7 +381,7 @@ func (p *Prog) funcValuesOf(v ssa.Value) []*ssa.Function {
 	case *ssa.Phi:
 		var out []*ssa.Function
 		for _, e := range x.Edges {
-			out = append(out, p.funcValuesOf(e)...)
+			out = append(out, p.funcValuesRec(e, seen)...)
 		}
 		return out
 	}
@@ -559,6 +567,9 @@ func fieldOfAddr(v ssa.Value) *types.Var {
 }
 
 func derefStruct(t types.Type) *types.Struct {
+	if t == nil {
+		return nil
+	}
 	if pt, ok := t.Underlying().(*types.Pointer); ok {
 		t = pt.Elem()
 	}
